@@ -18,21 +18,38 @@ class TranslateError(Exception):
     pass
 
 
+def skip_literal(src, i):
+    """src[i] is a double quote or a single quote: return the index just past the literal (or i+1 for a lifetime)"""
+    n = len(src)
+    if src[i] == '"':
+        j = i + 1
+        while j < n and src[j] != '"':
+            if src[j] == '\\':
+                j += 1
+            j += 1
+        return j + 1
+    # single quote: char literal or lifetime
+    if i + 1 < n and src[i + 1] == '\\':
+        j = src.find("'", i + 3)
+        if 0 < j <= i + 12:
+            return j + 1
+        return i + 1
+    if i + 2 < n and src[i + 2] == "'":
+        return i + 3
+    return i + 1
+
+
 def strip_comments(src):
-    # remove // line comments and /* */ block comments, leaving string literals alone
+    # remove // line comments and /* */ block comments, leaving string and char literals alone
     out = []
     i = 0
     n = len(src)
     while i < n:
         c = src[i]
-        if c == '"':
-            j = i + 1
-            while j < n and src[j] != '"':
-                if src[j] == '\\':
-                    j += 1
-                j += 1
-            out.append(src[i:j + 1])
-            i = j + 1
+        if c == '"' or c == "'":
+            j = skip_literal(src, i)
+            out.append(src[i:j])
+            i = j
         elif src.startswith("//", i):
             j = src.find("\n", i)
             if j < 0:
@@ -41,11 +58,6 @@ def strip_comments(src):
         elif src.startswith("/*", i):
             j = src.find("*/", i)
             i = n if j < 0 else j + 2
-        elif c == "'" and i + 2 < n and (src[i + 2] == "'" or (src[i + 1] == '\\' and src.find("'", i + 2) - i <= 4 and src.find("'", i + 2) > 0)):
-            # char literal
-            j = src.find("'", i + 2 if src[i + 1] != '\\' else i + 3)
-            out.append(src[i:j + 1])
-            i = j + 1
         else:
             out.append(c)
             i += 1
@@ -69,13 +81,8 @@ def balanced(src, start, open_c, close_c):
     n = len(src)
     while i < n:
         c = src[i]
-        if c == '"':
-            j = i + 1
-            while j < n and src[j] != '"':
-                if src[j] == '\\':
-                    j += 1
-                j += 1
-            i = j + 1
+        if c == '"' or c == "'":
+            i = skip_literal(src, i)
             continue
         if c == open_c:
             depth += 1
